@@ -253,3 +253,142 @@ Definition link2 (main : elfd) (mrels : list rel) (lib : elfd) (lrels : list rel
   let st2 := st_add st1 ex2 in
   m3 <- relocs_x86 LIB_BASE (e_dynsyms lib) st2 (lrels ++ e_pltrelocs lib) m2 ;;
   relocs_x86 0 (e_dynsyms main) st2 (mrels ++ e_pltrelocs main) m3.
+
+(* ------------------------------------------------------------------ ElfLinker::relocations_mips *)
+(* get_dynamic: the first dynamic entry with this tag *)
+Fixpoint dyn_get (dyns : list (Z * Z)) (tag : Z) : option Z :=
+  match dyns with [] => None | (t, v) :: r => if t =? tag then Some v else dyn_get r tag end.
+
+Definition ok_or {A} (o : option A) : res A := match o with Some a => Ok a | None => Err ECustom end.
+Definition U32 : Z := 4294967296.
+
+(* first loop: add the base to GOT words i, i+1, ... (k of them) *)
+Fixpoint mips_got_base (be : bool) (B pltgot : Z) (i : Z) (k : nat) (m : sections Z) : res (sections Z) :=
+  match k with
+  | O => Ok m
+  | S k' =>
+      a1 <- uadd B (i * 4) ;; a <- uadd a1 pltgot ;;
+      g <- get32 be m a ;; v <- ok_or g ;;
+      m' <- set32 be m a ((v + B mod U32) mod U32) ;;        (* value.wrapping_add(base as u32) *)
+      mips_got_base be B pltgot (i + 1) k' m'
+  end.
+
+(* second loop: external GOT entries (st_shndx = 0) get the registered address of their symbol *)
+Fixpoint mips_got_ext (be : bool) (dynsyms : list sym) (st : symtab) (addr : Z) (i : Z) (k : nat) (m : sections Z) : res (sections Z) :=
+  match k with
+  | O => Ok m
+  | S k' =>
+      s <- ok_or (nth_sym dynsyms i) ;;
+      m' <- (if s_shndx s =? 0
+             then match st_get st (s_name s) with
+                  | Some v => set32 be m addr (v mod U32)
+                  | None => Err EOther                       (* ElfLinkerMissingSymbol *)
+                  end
+             else Ok m) ;;
+      a' <- uadd addr 4 ;;
+      mips_got_ext be dynsyms st a' (i + 1) k' m'
+  end.
+
+(* third loop (repaired code): R_MIPS_REL32 (type 3) adds to the word the address of the symbol it names -- the
+   already relocated GOT entry of a global symbol (r_sym >= gotsym), st_value + base of a local one, the base
+   alone when r_sym = 0; other relocation types are ignored *)
+Definition mips_sym_add (be : bool) (B : Z) (dynsyms : list sym) (gotsym local_gotno pltgot : Z) (m : sections Z) (r : rel) : res Z :=
+  if r_sym r =? 0 then Ok (B mod U32)
+  else if r_sym r <? gotsym then
+    (s <- ok_or (nth_sym dynsyms (r_sym r)) ;; sv <- uadd (s_value s) B ;; Ok (sv mod U32))
+  else
+    (a0 <- uadd pltgot B ;;
+     d <- usub64 (r_sym r) gotsym ;; i <- uadd local_gotno d ;;
+     (if U64 <=? i * 4 then Panic else
+      (ga <- uadd a0 (i * 4) ;; g <- get32 be m ga ;; ok_or g))).
+
+Fixpoint mips_rel32 (be : bool) (B : Z) (dynsyms : list sym) (gotsym local_gotno pltgot : Z) (l : list rel) (m : sections Z) : res (sections Z) :=
+  match l with
+  | [] => Ok m
+  | r :: t =>
+      if r_type r =? 3 then
+        a <- uadd (r_offset r) B ;;
+        g <- get32 be m a ;; v <- ok_or g ;;
+        add <- mips_sym_add be B dynsyms gotsym local_gotno pltgot m r ;;
+        (if U32 <=? v + add then Panic                       (* u32 `value + symbol_address` overflow *)
+         else (m' <- set32 be m a (v + add) ;; mips_rel32 be B dynsyms gotsym local_gotno pltgot t m'))
+      else mips_rel32 be B dynsyms gotsym local_gotno pltgot t m
+  end.
+
+Definition relocs_mips (be : bool) (B : Z) (dynsyms : list sym) (st : symtab) (dyns : list (Z * Z)) (dynrels : list rel)
+           (m : sections Z) : res (sections Z) :=
+  local_gotno <- ok_or (dyn_get dyns 1879048202) ;;           (* DT_MIPS_LOCAL_GOTNO 0x7000000a *)
+  gotsym <- ok_or (dyn_get dyns 1879048211) ;;                (* DT_MIPS_GOTSYM      0x70000013 *)
+  symtabno <- ok_or (dyn_get dyns 1879048209) ;;              (* DT_MIPS_SYMTABNO    0x70000011 *)
+  pltgot <- ok_or (dyn_get dyns 3) ;;                         (* DT_PLTGOT *)
+  nglob <- usub64 symtabno gotsym ;;
+  cnt <- uadd local_gotno nglob ;;
+  m1 <- mips_got_base be B pltgot 0 (Z.to_nat cnt) m ;;
+  a0 <- uadd pltgot B ;; a1 <- uadd a0 (local_gotno * 4) ;;
+  m2 <- mips_got_ext be dynsyms st a1 gotsym (Z.to_nat nglob) m1 ;;
+  mips_rel32 be B dynsyms gotsym local_gotno pltgot dynrels m2.
+
+(* main (base 0) + one library (0x4200_0000), both EM_MIPS; be = endianness of main's header *)
+Definition link2m (be : bool) (main : elfd) (mdyns : list (Z * Z)) (mrels : list rel)
+           (lib : elfd) (ldyns : list (Z * Z)) (lrels : list rel) : res (sections Z) :=
+  mm <- memory main 0 ;;
+  m1 <- copy_sections [] mm ;;
+  ex1 <- exported 0 (e_dynsyms main) ;;
+  let st1 := st_add [] ex1 in
+  lm <- memory lib LIB_BASE ;;
+  m2 <- copy_sections m1 lm ;;
+  ex2 <- exported LIB_BASE (e_dynsyms lib) ;;
+  let st2 := st_add st1 ex2 in
+  m3 <- relocs_mips be LIB_BASE (e_dynsyms lib) st2 ldyns lrels m2 ;;
+  relocs_mips be 0 (e_dynsyms main) st2 mdyns mrels m3.
+
+(* ------------------------------------------------------------------ several DT_NEEDED libraries (x86) *)
+Definition LIB_STEP : Z := 33554432.            (* LIB_BASE_STEP = 0x0200_0000 *)
+Definition LIB_BASE0 : Z := 1073741824.         (* DEFAULT_LIB_BASE = 0x4000_0000 *)
+
+(* load_elf of each library in DT_NEEDED order (libraries without dependencies of their own): the next base, its
+   memory, its exports, then ITS relocations -- with the symbols registered so far, later libraries not yet *)
+Fixpoint load_libs (libs : list (elfd * list rel)) (base : Z) (m : sections Z) (st : symtab) : res (sections Z * symtab) :=
+  match libs with
+  | [] => Ok (m, st)
+  | (l, lr) :: t =>
+      B <- uadd base LIB_STEP ;;
+      lm <- memory l B ;;
+      m1 <- copy_sections m lm ;;
+      ex <- exported B (e_dynsyms l) ;;
+      let st1 := st_add st ex in
+      m2 <- relocs_x86 B (e_dynsyms l) st1 (lr ++ e_pltrelocs l) m1 ;;
+      load_libs t B m2 st1
+  end.
+
+Definition linkn (main : elfd) (mrels : list rel) (libs : list (elfd * list rel)) : res (sections Z) :=
+  mm <- memory main 0 ;;
+  m1 <- copy_sections [] mm ;;
+  ex1 <- exported 0 (e_dynsyms main) ;;
+  r <- load_libs libs LIB_BASE0 m1 (st_add [] ex1) ;;
+  relocs_x86 0 (e_dynsyms main) (snd r) (mrels ++ e_pltrelocs main) (fst r).
+
+Lemma linkn_one main mrels lib lrels : linkn main mrels [(lib, lrels)] = link2 main mrels lib lrels.
+Proof.
+  unfold linkn, link2. destruct (memory main 0); cbn [bind]; try reflexivity.
+  destruct (copy_sections [] a); cbn [bind]; try reflexivity.
+  destruct (exported 0 (e_dynsyms main)); cbn [bind]; try reflexivity.
+  cbn [load_libs]. change (uadd LIB_BASE0 LIB_STEP) with (Ok LIB_BASE). cbn [bind].
+  destruct (memory lib LIB_BASE); cbn [bind]; try reflexivity.
+  destruct (copy_sections a0 a2); cbn [bind]; try reflexivity.
+  destruct (exported LIB_BASE (e_dynsyms lib)); cbn [bind]; try reflexivity.
+  destruct (relocs_x86 LIB_BASE (e_dynsyms lib) _ _ a3); cbn [bind fst snd]; reflexivity.
+Qed.
+
+(* just_interpreter: only the PT_INTERP object is loaded, at DEFAULT_LIB_BASE itself; DT_NEEDED is ignored *)
+Definition link_interp (main : elfd) (mrels : list rel) (interp : elfd) (irels : list rel) : res (sections Z) :=
+  mm <- memory main 0 ;;
+  m1 <- copy_sections [] mm ;;
+  ex1 <- exported 0 (e_dynsyms main) ;;
+  let st1 := st_add [] ex1 in
+  lm <- memory interp LIB_BASE0 ;;
+  m2 <- copy_sections m1 lm ;;
+  ex2 <- exported LIB_BASE0 (e_dynsyms interp) ;;
+  let st2 := st_add st1 ex2 in
+  m3 <- relocs_x86 LIB_BASE0 (e_dynsyms interp) st2 (irels ++ e_pltrelocs interp) m2 ;;
+  relocs_x86 0 (e_dynsyms main) st2 (mrels ++ e_pltrelocs main) m3.
